@@ -3,7 +3,8 @@
    assignment loop of Array::operator=.  [assign_spec]: evaluate every right-hand-side element on the
    initial memory, then store. *)
 From Coq Require Import ZArith List Bool.
-From Adept Require Import View ViewProofs Assign AssignProofs.
+From Adept Require Import View ViewProofs Assign AssignProofs AssignGen.
+From AdeptGen Require Import Gen_Alias.
 Import ListNotations.
 Local Open Scope Z_scope.
 
@@ -55,3 +56,28 @@ Example C04_example :
   let e := EBin BAdd (ELeaf (v 0)) (ELeaf (v 2)) in
   shape e [3] /\ map (fun a => assign (v 1) e m0 0%nat a) [0;1;2;3;4] = [1; 4; 6; 8; 5].
 Proof. split; [repeat constructor|vm_compute; reflexivity]. Qed.
+
+(* Tie G.  Array::data_range and Array::is_aliased_ as read from Array.h on every run (initial bounds, the sign test on
+   each stride, the two bound updates, the overlap comparison) are the model's [data_range] and the array case of
+   [is_aliased]; hence every address a view can reach lies inside the range the code computes, and the comparison the
+   code makes answers false only for ranges that share no address.  FixedArray reports data_ .. data_+length_-1 and makes
+   the same comparison. *)
+Theorem C04_generated_alias_test : forall v p lo hi,
+  gen_data_range (vw v) = data_range (vw v) /\
+  gen_leaf_aliased v p lo hi = is_aliased (ELeaf v) p lo hi /\
+  (forall idx, wfv (vw v) -> inb (dims (vw v)) idx ->
+     let '(l, h) := gen_data_range (vw v) in l <= addr (vw v) idx <= h) /\
+  (forall b t m1 m2 a, al_test b t m1 m2 = false -> b <= a <= t -> m1 <= a <= m2 -> False) /\
+  (forall base len b t m1 m2, fdr_begin base len = base /\ fdr_end base len = base + len - 1 /\ fal_test b t m1 m2 = al_test b t m1 m2).
+Proof.
+  intros v p lo hi. split; [exact (gen_data_range_eq (vw v))|]. split; [exact (gen_leaf_aliased_eq v p lo hi)|].
+  split; [intros idx Hw Hi; rewrite gen_data_range_eq; exact (footprint (vw v) idx Hw Hi)|].
+  split; [exact al_test_false_disjoint|].
+  intros base len b t m1 m2. exact (conj (proj1 (gen_fixed_range base len)) (conj (proj2 (gen_fixed_range base len)) (gen_fixed_test b t m1 m2))).
+Qed.
+Print Assumptions C04_generated_alias_test.
+
+(* non-vacuity: a reversed 3 x 2 view with a negative row stride *)
+Example C04_example_generated_range :
+  gen_data_range (mkView 10 [3;2] [-4;1]) = (2, 11) /\ al_test 2 11 12 20 = false /\ al_test 2 11 11 20 = true.
+Proof. vm_compute. repeat split. Qed.
